@@ -164,6 +164,19 @@ def c16(ctx, replay):
                 first = out[out.index("WARNING: DATA RACE"):][:3000]
                 funcs = sorted(set(re.findall(r"genetics\.\(\*?(\w+)\)\.(\w+)\(\)", first)))
                 races.append((procs, n, first, funcs))
+    # the log level is an option setting too: code that only runs at level debug is executed by the goroutines as well
+    for k in range(1 if not thorough else 3):
+        rep_file = ctx.path("race-debug-%d.json" % k)
+        code, rep, out = ctx.vh(["race-epochs", "-report", rep_file, "-runs", "1" if not thorough else "3", "-epochs", "2" if not thorough else "5",
+                                 "-seed", str(ctx.seed * 100 + 50 + k), "-loglevel", "debug"], pkg="vh_genome", race=True,
+                                env={"GOMAXPROCS": "4", "GORACE": "halt_on_error=0 exitcode=0"}, expect_report=rep_file, timeout=3000)
+        runs += 1
+        ctx.evaluations += rep.get("evaluations", 0)
+        n = out.count("WARNING: DATA RACE")
+        if n:
+            first = out[out.index("WARNING: DATA RACE"):][:3000]
+            funcs = sorted(set(re.findall(r"genetics\.\(\*?(\w+)\)\.(\w+)\(\)", first)))
+            races.append(("4, log level debug", n, first, funcs))
     for procs, n, first, funcs in races[:3]:
         top = ",".join("%s.%s" % f for f in funcs[:4])
         ctx.violation("Go race detector: %d data race report(s) in free-running parallel epochs at GOMAXPROCS=%s (%s)" % (n, procs, top),
